@@ -4,6 +4,8 @@ package pdfcmp
 
 import (
 	"bytes"
+	"encoding/json"
+	"sort"
 	"fmt"
 	"os"
 	"regexp"
@@ -14,6 +16,7 @@ import (
 )
 
 var (
+	reISO  = regexp.MustCompile(`\d{4}-\d\d-\d\d[T ]\d\d:\d\d:\d\d`)
 	reID   = regexp.MustCompile(`/ID\s*\[\s*<[0-9a-fA-F]*>\s*<[0-9a-fA-F]*>\s*\]`)
 	reDate = regexp.MustCompile(`D:\d{14}([+\-]\d\d'\d\d'|Z)`)
 )
@@ -22,6 +25,7 @@ var (
 func Normalize(b []byte) []byte {
 	b = reID.ReplaceAllFunc(b, func(m []byte) []byte { return bytes.Repeat([]byte{'#'}, len(m)) })
 	b = reDate.ReplaceAllFunc(b, func(m []byte) []byte { return bytes.Repeat([]byte{'#'}, len(m)) })
+	b = reISO.ReplaceAllFunc(b, func(m []byte) []byte { return bytes.Repeat([]byte{'#'}, len(m)) })
 	return b
 }
 
@@ -58,6 +62,12 @@ func Validate(path string) (pages int, err error) {
 // object streams / encryption make bytes run-dependent) sizes within slack bytes.
 // Other files: byte-equal after Normalize.
 func SameOutput(ref, got string, slack int64) (bool, string) {
+	return SameOutputMasking(ref, got, slack, "", "")
+}
+
+// SameOutputMasking is SameOutput for outputs that may mention the directory they were produced in
+// (exported JSON names its source file): refRoot in the reference and gotRoot in the output are masked.
+func SameOutputMasking(ref, got string, slack int64, refRoot, gotRoot string) (bool, string) {
 	rb, err := os.ReadFile(ref)
 	if err != nil {
 		return false, "reference unreadable: " + err.Error()
@@ -66,9 +76,18 @@ func SameOutput(ref, got string, slack int64) (bool, string) {
 	if err != nil {
 		return false, "output unreadable: " + err.Error()
 	}
+	if refRoot != "" && !bytes.HasPrefix(rb, []byte("%PDF-")) {
+		rb = bytes.ReplaceAll(rb, []byte(refRoot), []byte("<ROOT>"))
+		gb = bytes.ReplaceAll(gb, []byte(gotRoot), []byte("<ROOT>"))
+	}
 	if !bytes.HasPrefix(rb, []byte("%PDF-")) {
 		if bytes.Equal(Normalize(rb), Normalize(gb)) {
 			return true, ""
+		}
+		if ca, ok := canonJSON(Normalize(rb)); ok {
+			if cb, ok := canonJSON(Normalize(gb)); ok && ca == cb {
+				return true, "" // same JSON value up to the (map-ordered) order of array elements
+			}
 		}
 		return false, fmt.Sprintf("non-PDF output differs from the reference run (%d vs %d bytes)", len(gb), len(rb))
 	}
@@ -100,4 +119,42 @@ func SameOutput(ref, got string, slack int64) (bool, string) {
 		return false, fmt.Sprintf("size %d, reference run %d", len(gb), len(rb))
 	}
 	return true, ""
+}
+
+// canonJSON renders a JSON document with object keys sorted and array elements sorted by their own
+// canonical text (pdfcpu emits some arrays in Go map order).
+func canonJSON(b []byte) (string, bool) {
+	var v any
+	if json.Unmarshal(b, &v) != nil {
+		return "", false
+	}
+	return canonValue(v), true
+}
+
+func canonValue(v any) string {
+	switch x := v.(type) {
+	case map[string]any:
+		keys := make([]string, 0, len(x))
+		for k := range x {
+			keys = append(keys, k)
+		}
+		sort.Strings(keys)
+		var sb strings.Builder
+		sb.WriteByte('{')
+		for _, k := range keys {
+			fmt.Fprintf(&sb, "%q:%s,", k, canonValue(x[k]))
+		}
+		sb.WriteByte('}')
+		return sb.String()
+	case []any:
+		el := make([]string, len(x))
+		for i, e := range x {
+			el[i] = canonValue(e)
+		}
+		sort.Strings(el)
+		return "[" + strings.Join(el, ",") + "]"
+	default:
+		b, _ := json.Marshal(x)
+		return string(b)
+	}
 }
